@@ -10,7 +10,7 @@ import io
 import numpy as np
 import sympy
 
-from verifkit.common import canon_hash, short_exc, tb_tail
+from verifkit.common import bystander, canon_hash, short_exc, tb_tail
 from verifkit.gen import specs as G
 from verifkit.props.c01 import CATALOGUE, NativeCounter, spec_from_model
 from verifkit.ref.symbolic import RefModel, rename_to_ref, same_expr
@@ -236,6 +236,17 @@ def run_case(rng, idx, tier, lane, ctx):
             if native.ok == 0 and not wit:
                 return {"status": "inconclusive", "reason": "no-native-compile", "counters": counters, "sample": spec}
         cls = G.classes(spec)
+    if lane != "cython":
+        xb = np.array([1.0 + 0.37 * k for k in range(len(spec["states"]))])
+        thb = [0.3 + 0.21 * k for k in range(len(spec["params"]))]
+
+        def _again(m=m, xb=xb, thb=thb, has_p=bool(spec["params"])):
+            if has_p:
+                m.parameters = list(thb)
+            return [m.ode(xb, 0.6), m.jacobian(xb, 0.6), m.grad(xb, 0.6), m.transitionMean(xb, 0.6), m.grad_jacobian(xb, 0.6)]
+        w_ = bystander(ctx, _again, counters)
+        if w_:
+            wit.append(w_)
     res = {"status": "violated" if wit else "held", "nontrivial": nontrivial(ref), "key": canon_hash(spec),
            "classes": cls, "counters": counters, "sample": spec}
     if wit:
